@@ -29,11 +29,35 @@ CLAIMS = {
         "Static, over every schedule and gradient-presence pattern: (1) each collective or process-group-creating call must be reached in a rank-invariant control context with rank-invariant group arguments on every call path from __init__/step — the two defects named in the property text (rank starvation through the `continue` in step(), per-owner lazy DeviceMesh creation) are reported by this rule and listed as known findings; (2) update_params fills the local send buffers, gathers, and applies all gathered masked blocks to the global masked parameter list, with no other parameter write after the gather (replica identity); (3) the DDP lists live in the right index spaces and are re-masked on global selector change; (4) the DDP copy agrees with its HSDP/HybridShard siblings. NOT decided: numerical equality with the serial optimizer, the rounding bound.",
         "Assumes (premises of the property) that parameter shapes, gradient presence per parameter, hyperparameters, world size and mesh layout are identical on all ranks; trusts the collective-sink table and torch 2.5.1's _get_all_submeshes(_init_backend=False).",
     ),
+    "C07": (
+        "DESIGN.md §3 C07",
+        "call-site agreement between the parameter and gradient recovery paths, sibling differ (FSDP~HSDP, HSDP~DDP/HybridShard), points-to view-only derivation of recovered blocks, rank-variance taint + buffer-protocol typestate + index-space typing for the HSDP distribution",
+        "Static agreement conditions: gradients are recovered with the same parameter's metadata (shape/start/end) and blocked with the merged dims and counts stored by the parameter path; the FSDP and HSDP copies of recovery and blocking are canonically equal, recovered blocks are views with the documented guards and a three-way well-founded recursion; for HSDP the collective-uniformity, gather-protocol, index-space and re-mask rules of C06 are instantiated (the rank-starvation defect is reported and listed as a known finding); block keys carry the shard rank. NOT decided: maximality of recovered blocks (C15's arithmetic), exactly-once element coverage across ranks, numerical equality with the serial optimizer, compile_fsdp_parameter_metadata's index conversion.",
+        "Same trusted base as C06 (rank-invariance premises, collective-sink table) and C15 (torch view-operation table).",
+    ),
+    "C08": (
+        "DESIGN.md §3 C08",
+        "predicate agreement across the four non-empty-shard filter sites, dominance of the `grad is None` test, sibling differ (FullyShard~HybridShard, HybridShard~HSDP/DDP), rank-variance taint + buffer-protocol typestate + index-space typing for the HybridShard distribution",
+        "Static agreement conditions: parameters, gradients and block infos are filtered by one and the same predicate of the parameter's local shard (so sequences stay aligned when a gradient is absent) and block infos zip strictly with the per-parameter block counts; an absent DTensor gradient yields None; the FullyShard and HybridShard copies agree; for HybridShard the collective-uniformity, gather-protocol, index-space and re-mask rules of C06 are instantiated (rank starvation reported as a known finding). NOT decided: numerical equality with the serial optimizer.",
+        "Same trusted base as C06.",
+    ),
     "C13": (
         "DESIGN.md §3 C13",
         "try/except shape + dominance analysis on the CFG of both _amortized_computation copies, dtype-provenance of the value tested for finiteness, exhaustive interpretation of the tolerance-counter routine, write-through rule on subscript stores into masked lists (index-space typing)",
         "Static: the matrix routine runs inside `try/except Exception` whose handler keeps the stored matrix, warns and records a failure (success recorded after the call, one tracker per block judged once); every copy_ into an inverse root / eigenbasis is dominated by a NaN/Inf test on the same value in its stored dtype raising PreconditionerValueError outside the try, the factor-matrix check dominates the routine, and the refresh dominates the parameter update; the counter routine is interpreted on all (outcomes, count, tolerance, block) cases; no subscript store on the step path goes into a masked (re-created) list — the rule that found the lost-counter defect. What remains assumed is torch semantics of isnan/isinf/copy_.",
         "Trusts torch semantics of isnan / isinf / copy_ and the index-space typing seeds.",
+    ),
+    "C14": (
+        "DESIGN.md §3 C14",
+        "purity / determinism analysis of the three _distribute_buffer_sizes copies (rank taint + structural checks of the stable sort and the (load, rank) heap), def-use of owner ranks into the distributor selector, points-to view-only derivation of all buffer lists, sibling differ over the three copies",
+        "Static: the assignment depends on global block sizes and group size only (no rank-variant or order-free value, stable largest-first order over enumerate, heap of (load, rank) tuples whose load increment is the size recorded for the block); a block's owner is the rank whose rank in the communication group equals the assigned rank, owners come from the assignment, local lists are the selector-compressed global lists and state is allocated over local lists; every per-block buffer is a view of the single gather buffer and the local send buffer is the rank's own split, with one size expression; the DDP/HSDP/HybridShard copies (two of which no runnable test touches) are canonically equal. NOT decided: the 4/3 and load-difference bounds, 64-byte alignment arithmetic, non-overlap of offsets.",
+        "Sibling agreement is a cross-check: an edit applied consistently to all three copies passes it; trusts Python's sort stability and heapq tuple ordering.",
+    ),
+    "C15": (
+        "DESIGN.md §3 C15",
+        "points-to view-only derivation (strict polarity) of the recovered blocks, CFG/AST guard structure of the recursive helper, sibling differ FSDP~HSDP",
+        "Static: every block returned by split-tensor-block recovery shares storage with the given shard (only narrow/view on the path, through the recursion), pieces are concatenated left+center+right, a non-flat shard raises first, an empty range yields no blocks, the last dimension returns the block, the outer routine returns only the helper's result, every recursive call increases `dimension`, the whole-block descent is taken only under strict start > end, and the two copies agree. NOT decided: that the pieces partition the range into slabs of the stated form and are minimal in number (integer arithmetic over all shapes and ranges).",
+        "Trusts the torch view-operation table (narrow, view are views; reshape/clone/indexing are not).",
     ),
     "C17": (
         "DESIGN.md §3 C17",
